@@ -218,8 +218,9 @@ class RgbFunc(SubCheck):
         return out
 
 
-HUES = ["-720", "-360", "-120", "0", "30", "60", "90", "120", "180", "240", "300", "359.9", "360", "480",
-        "720", "750", "-90", "1080"]
+# every sextant boundary and sextant interior over five turns, negative and positive (the wrap must hold per turn and
+# per sextant: a partial wrap only shows for some (turn, sextant) combinations), plus fractional hues
+HUES = [str(h) for h in range(-750, 1111, 30)] + ["359.9", "-0.1", "-359.9", "47.5", "-312.5"]
 SL = ["-10", "0", "25", "50", "75", "100", "110"]
 
 
@@ -366,7 +367,7 @@ class Packings(SubCheck):
 
 
 LAT9 = [0, 32, 64, 96, 128, 160, 192, 224, 255]
-NEWH = [None, 0.0, 30.0, 60.0, 120.0, 180.0, 240.0, 300.0]
+NEWH = [None, 0.0, 30.0, 60.0, 120.0, 180.0, 240.0, 300.0, 330.0, -30.0, -150.0, -270.0, -300.0, 390.0, 540.0, -660.0]
 
 
 def ref_hls(r, g, b):
